@@ -60,6 +60,15 @@ def scenarios(tier):
                ["top", "x"], ["top"])
     L.append((SC.scn("noisy-target-built-twice-in-one-run-j1", tw, ["redo --no-color top"], visible=VIS, log_mode=True,
                      post_cmds=post, times={"x": 2}), 0))
+    # a script that redirects the stderr of its redo-ifchange: what the nested build writes goes to the script's file, and the
+    # nested target's own log must not keep showing an earlier build's lines as if they were the latest build's
+    rw = World("noisy-redirected", {"s": ["0", "1"]},
+               {"top.do": [S(deps=["a"], noise=1)], "a.do": [S(deps=["c"], noise=1, out="file", redir=True)], "c.do": [S(deps=["s"], noise=1)]},
+               ["top", "a", "c"], ["top"])
+    L.append((SC.scn("noisy-redirected-nested-build-j1", rw, ["redo --no-color top"], visible=VIS, log_mode=True,
+                     setup=[["ifchange", ["c"]], ["edit", "s", "1"]],
+                     post_cmds=post + [["redo-log", "-r", "--no-color", "c"]], times={"c": 0},
+                     post_times=[None, None, {"c": 0, "top": 0, "a": 0}]), 0))
     if not q:
         L.append((SC.scn("noisy-ifchange-j1", w, ["redo-ifchange top"], visible=VIS, log_mode=True, post_cmds=post), 2))
         L.append((SC.scn("noisy-record-like-line-j1", noisy_world(2), ["redo --no-color top"], visible=VIS, log_mode=True,
@@ -107,8 +116,9 @@ def parse_raw(text):
     return out
 
 
-def judge_stream(name, pairs, targets, scn, out):
+def judge_stream(name, pairs, targets, scn, out, times=None):
     """each target's tagged lines: exactly once, in order, complete, under its own header"""
+    times = times if times is not None else (scn.get("times") or {})
     seen = {t: [] for t in targets}
     for cur, line in pairs:
         m = TAG.match(line.strip("\r"))
@@ -146,7 +156,12 @@ def judge_stream(name, pairs, targets, scn, out):
                              "stream": name, "target": t, "seq": seq}, {"count": n}))
     for t, seqs in seen.items():
         seqs = [x for x in seqs if x not in (6, 7, 8)]
-        n = (scn.get("times") or {}).get(t, 1)
+        n = times.get(t, 1)
+        if n == 0:
+            if seqs:
+                out.append(({"kind": "lines-shown-for-a-target-whose-latest-build-logged-nothing", "scenario": scn["name"],
+                             "stream": name, "target": t}, {"seqs": seqs}))
+            continue
         if n > 1:
             if seqs != ORDER * n:
                 out.append(({"kind": "lines-of-a-target-built-%d-times-not-shown-%d-times" % (n, n), "scenario": scn["name"], "stream": name,
@@ -167,13 +182,16 @@ def oracle(scn, res):
     targets = scn["world"].targets
     live = res["stderr"]["T0"]
     judge_stream("live", parse_pretty(live), targets, scn, out)
-    for p in res.get("post", []):
+    for i, p in enumerate(res.get("post", [])):
         raw = "--no-pretty" in p["argv"]
+        pt = (scn.get("post_times") or [])
+        times = pt[i] if i < len(pt) and pt[i] is not None else None
         if p["rc"] != 0:
             out.append(({"kind": "redo-log-failed", "scenario": scn["name"], "raw": raw}, {"err": p["err"][-400:]}))
             continue
         text = p["out"] + p["err"]
-        judge_stream("replay-raw" if raw else "replay-pretty", parse_raw(text) if raw else parse_pretty(text), targets, scn, out)
+        judge_stream(("replay-raw" if raw else "replay-pretty") + ("" if times is None else ":" + p["argv"][-1]),
+                     parse_raw(text) if raw else parse_pretty(text), targets, scn, out, times=times)
     return out
 
 
